@@ -28,6 +28,7 @@ TruncDiv(a, b) == \* truncation toward zero, b # 0
 Value(rd, mult, div) ==
   IF rd.c = "garbage" THEN [c |-> "v", n |-> 3]
   ELSE IF rd.c = "special" THEN [c |-> "any", n |-> 0]
+  ELSE IF rd.c = "bigint" THEN (IF mult = div /\ div # 0 THEN [c |-> "bigs", n |-> 0, s |-> rd.s] ELSE [c |-> "any", n |-> 0])
   ELSE IF Abs(rd.n) < 24 * Pow2(rd.k) THEN [c |-> "v", n |-> 2]      \* |reading| < 24
   ELSE IF div = 0 THEN [c |-> "any", n |-> 0]
   ELSE [c |-> "v", n |-> TruncDiv(mult * rd.n, div * Pow2(rd.k))]
